@@ -235,13 +235,17 @@ def r07_4(ctx: Ctx) -> None:
         fields[cn] = s
     # Folder digest fields are filled by UnpackInfo._retrieve_coders_info through `folder.<attr> = ...`
     u = ctx.prog.func("archiveinfo", "UnpackInfo._retrieve_coders_info")
+    fvars = set()
+    for n in walk(u.node):
+        if isinstance(n, ast.For) and "folders" in norm(n.iter):
+            fvars |= {x.id for x in ast.walk(n.target) if isinstance(x, ast.Name)}
     for n in walk(u.node):
         if isinstance(n, ast.Assign):
             for t in n.targets:
-                if isinstance(t, ast.Attribute) and isinstance(t.value, ast.Name) and t.value.id == "folder":
+                if isinstance(t, ast.Attribute) and isinstance(t.value, ast.Name) and t.value.id in fvars:
                     fields["Folder"].add(t.attr)
         if isinstance(n, ast.Call) and isinstance(n.func, ast.Attribute) and n.func.attr == "append" and isinstance(n.func.value, ast.Attribute) \
-                and isinstance(n.func.value.value, ast.Name) and n.func.value.value.id == "folder":
+                and isinstance(n.func.value.value, ast.Name) and n.func.value.value.id in fvars:
             fields["Folder"].add(n.func.value.attr)
     ctx.floor("R07.4", sum(len(v) for v in fields.values()), 12, "format fields derived from the readers")
     derived = {"PackInfo": {"packpositions", "enable_digests"}, "Folder": {"digestdefined"}}
@@ -448,7 +452,10 @@ def r07_8(ctx: Ctx) -> None:
     every = not cfg.reaches(body, it, avoid=[q.node_for(f, idxs[0])], normal_only=True)
     ctx.check(every, "R07.8", f, idxs[0], "size index advances for every stream", "the index into unpacksizes does not advance for the last stream of a folder: every folder after the first gets shifted sizes")
     wr = [c for c in ast.walk(inner) if isinstance(c, ast.Call) and attr_tail(c) == "write_uint64"]
-    ok = len(wr) == 1 and any(norm(cd) == "j + 1 != num" and pol for cd, pol in q.facts_at(f, wr[0])) and norm(wr[0].args[1]).endswith(f"[{idxs[0].target.id}]")
+    jv = inner.target.id if isinstance(inner.target, ast.Name) else "?"
+    nv = norm(inner.iter.args[0]) if isinstance(inner.iter, ast.Call) and dotted(inner.iter.func) == "range" and len(inner.iter.args) == 1 else "?"
+    last_tests = {f"{jv} + 1 != {nv}", f"{jv} != {nv} - 1", f"{jv} < {nv} - 1", f"{jv} + 1 < {nv}"}
+    ok = len(wr) == 1 and any(norm(cd) in last_tests and pol for cd, pol in q.facts_at(f, wr[0])) and norm(wr[0].args[1]).endswith(f"[{idxs[0].target.id}]")
     ctx.check(ok, "R07.8", f, wr[0] if wr else inner, "a size is written for all but the last stream of a folder", "sizes are not written for exactly all-but-the-last stream of each folder")
     # digests section: written when any digest is defined, with the defined vector
     n = cond_of("CRC")
